@@ -64,6 +64,22 @@ PROJECTS = {
 }
 
 
+def private_binary(ctx, envname):
+    """a private copy of the freshly built binary (colleagues' checks relink .build/o1/bin/cppcheck in place while this
+    check runs); copied under the build lock, with the cfg/platforms/addons links cppcheck looks up next to its executable"""
+    if os.environ.get(envname):
+        return os.environ[envname]
+    d = os.path.join(ctx.tmp, "bin")
+    os.makedirs(d, exist_ok=True)
+    dst = os.path.join(d, "cppcheck")
+    if not os.path.exists(dst):
+        with build_repo.Lock("repo-" + ctx.variant):
+            shutil.copy2(ctx.cppcheck, dst)
+        for sub in ("cfg", "platforms", "addons"):
+            os.symlink(os.path.join(core.REPO, sub), os.path.join(d, sub))
+    return dst
+
+
 class Proj:
     def __init__(self, ctx, name, binary):
         self.name = name
@@ -281,13 +297,13 @@ class Explorer:
         for kind in kinds:
             k = 1
             while k <= maxk:
-                batch = [dict(type="kill", exec=execname, kind=kind, k=kk) for kk in range(k, k + 4)]
+                batch = [dict(type="kill", exec=execname, kind=kind, k=kk) for kk in range(k, k + 3)]
                 rs = self.explore(proj, batch)
                 alive = [r for r in rs if not r["died"]]
                 out += rs
                 if alive:
                     break
-                k += 4
+                k += 3
         return out
 
     def finish(self):
@@ -334,8 +350,8 @@ class Explorer:
                         d[i:i] = rng.choice(frag)
                 gen.add(bytes(d))
         allops = sorted(p for p in prefixes | gen if b"\0" not in p)
-        if ctx.tier != "thorough" and len(allops) > 9000:
-            keep = set(rng.sample(allops, 9000))
+        if ctx.tier != "thorough" and len(allops) > 6000:
+            keep = set(rng.sample(allops, 6000))
             allops = [p for p in allops if p in keep]
         lines = ["load " + core.hx(p) for p in allops]
         rc, impl, err = core.run_lines(self.exe, [], lines, timeout=900)
@@ -388,7 +404,7 @@ def run(ctx, res):
     drv = ctx.driver("drv_c20")
     exe = ctx.harness("c20")
     source_shape(res, drv)
-    binary = os.environ.get("VERIF_C20_BIN") or ctx.cppcheck
+    binary = private_binary(ctx, "VERIF_C20_BIN")
     projs = {n: Proj(ctx, n, binary) for n in PROJECTS}
     ex = Explorer(ctx, res, drv, exe)
     for p in projs.values():
@@ -402,10 +418,10 @@ def run(ctx, res):
                 ex.kill_cases(p, execname)
     else:
         ex.kill_cases(projs["base3"], "j1")
-        ex.kill_cases(projs["early2"], "j1", kinds=["cacheopen", "cachewrite", "cacheclose", "finding"])
+        ex.kill_cases(projs["early2"], "j1", kinds=["cacheopen", "finding"])
         ex.kill_cases(projs["info3"], "j1", kinds=["cachereopen", "cacheclose"])
         for execname in ("thread", "process"):
-            cs = [dict(type="kill", exec=execname, kind=rng.choice(KINDS[:3] + ["finding"]), k=rng.randrange(1, 6)) for _ in range(6)]
+            cs = [dict(type="kill", exec=execname, kind=rng.choice(KINDS[:3] + ["finding"]), k=rng.randrange(1, 6)) for _ in range(3)]
             ex.explore(projs[rng.choice(["base3", "summ2", "early2"])], cs)
     # torn writes: byte cuts of complete cache files
     for name in (["base3", "early2", "summ2", "info3"] if thorough else ["base3"]):
@@ -415,7 +431,7 @@ def run(ctx, res):
             if thorough and len(data) <= 200:
                 ls = list(range(len(data) + 1))
             else:
-                n = 40 if thorough else 7
+                n = 40 if thorough else 4
                 ls = sorted(set([0, 1, len(data) - 2, len(data) - 1] + [rng.randrange(len(data)) for _ in range(n)]))
             cuts += [dict(type="cut", file=af, len=L) for L in ls if 0 <= L <= len(data)]
         ex.explore(p, cuts)
@@ -426,7 +442,7 @@ def run(ctx, res):
 
 
 def replay(ctx, res, rp):
-    binary = os.environ.get("VERIF_C20_BIN") or ctx.cppcheck
+    binary = private_binary(ctx, "VERIF_C20_BIN")
     p = Proj(ctx, rp["project"], binary)
     drv = ctx.driver("drv_c20"); exe = ctx.harness("c20")
     ex = Explorer(ctx, res, drv, exe)
